@@ -250,6 +250,14 @@ def run(tier, seed, build=True):
                          # a member path longer than the 100-byte name field of a tar header (as in collected winevt trees)
                          "long-gnu.tar": gen.tar([("C/Windows/System32/winevt/Logs/" + "Microsoft-Windows-Kernel-PnP%4Configuration-" * 3 + fname, blob)], fmt=tarfile.GNU_FORMAT),
                          "long-pax.tar": gen.tar([("C/Windows/System32/winevt/Logs/" + "Microsoft-Windows-Kernel-PnP%4Configuration-" * 3 + fname, blob)], fmt=tarfile.PAX_FORMAT)}
+                # archives with TWO event logs, one member path being the tail of the other's (an `old/` copy next to the
+                # current file, either order): each member is unpacked by its own full path; the second log has no events
+                ne = os.path.join(work, "noevents.evtx")
+                if name != "noevents" and os.path.exists(ne):
+                    neb = open(ne, "rb").read()
+                    conts["two-old-first.tar"] = gen.tar([("old/" + fname, neb), (fname, blob)])
+                    conts["two-old-last.tar"] = gen.tar([(fname, blob), ("old/" + fname, neb)])
+                    conts["two-nested.tar"] = gen.tar([("logs/a/" + fname, neb), ("a/" + fname, blob)])
                 # an lz4 frame whose blocks follow the file structure (4096-byte header, then one block per 64 KiB chunk)
                 for cn, cb in conts.items():
                     cdir = os.path.join(work, "c_%s_%s" % (name, cn.replace(".", "_")))
